@@ -3,11 +3,12 @@
 (* speed in every cycle.                                                                              *)
 EXTENDS IpTimer, TLC
 
-Start    == \E s \in Speeds : t >= 0 /\ Step([start |-> TRUE, speed |-> s])
-Count    == \E s \in Speeds : t < TSat /\ Step([start |-> FALSE, speed |-> s])
-Saturate == \E s \in Speeds : t = TSat /\ since <= TSat + 2 /\ Step([start |-> FALSE, speed |-> s])
+Start    == \E s \in Speeds : t >= 0 /\ Step([start |-> TRUE, speed |-> s, rst |-> FALSE])
+Reset    == \E s \in Speeds : \E st \in BOOLEAN : t >= 0 /\ Step([start |-> st, speed |-> s, rst |-> TRUE])
+Count    == \E s \in Speeds : t < TSat /\ Step([start |-> FALSE, speed |-> s, rst |-> FALSE])
+Saturate == \E s \in Speeds : t = TSat /\ since <= TSat + 2 /\ Step([start |-> FALSE, speed |-> s, rst |-> FALSE])
 
-Next == Start \/ Count \/ Saturate
+Next == Start \/ Reset \/ Count \/ Saturate
 Spec == Init /\ [][Next]_vars
 TypeOK == t \in 0..TSat /\ in.speed \in Speeds
 =============================================================================
